@@ -1,0 +1,33 @@
+//go:build verif
+// +build verif
+
+package sftp
+
+import "sync/atomic"
+
+// Verification hook points. Built only with the "verif" tag; an external
+// harness installs verifHookFn to observe (and perturb the schedule at)
+// existing suspension points and state transitions.
+const (
+	vhAllocGet = iota
+	vhAllocRelease
+	vhAllocFree
+	vhPmIncoming
+	vhPmReady
+	vhPmDispatch
+	vhPmSendBegin
+	vhPmSendEnd
+	vhSrvWorker
+	vhRsWorker
+	vhCliAfterRegister
+	vhCliBeforeDeliver
+	vhCliBeforeBroadcast
+)
+
+var verifHookFn atomic.Pointer[func(point int, id, oid uint32, b []byte)]
+
+func verifHook(point int, id, oid uint32, b []byte) {
+	if fn := verifHookFn.Load(); fn != nil {
+		(*fn)(point, id, oid, b)
+	}
+}
